@@ -302,6 +302,35 @@ impl Property for Soundness {
                 stats.sample(10, || json!({"program": text, "outcome": run.outcome.short()}));
                 self.judge(&format!("`{text}`"), &run, stats).unwrap_or(Verdict::Pass)
             }
+            "fs" => {
+                // a std.fs call on a scratch tree, written in the language, and a match with one arm per
+                // member of the declared result type: whatever the operating system answers (also errors
+                // that carry no OS code), the result is one of the declared members
+                let op = case["op"].as_str().unwrap_or("");
+                let (pa, pb) = (case["a"].as_str().unwrap_or(""), case["b"].as_str().unwrap_or(""));
+                let Some(crate::ty::Ty::Fun(params, ret)) = crate::props::c18::declared(&format!("std.fs.{op}")) else {
+                    return Verdict::Discard("fs function not exported under this name");
+                };
+                let thread = std::thread::current().name().unwrap_or("t").to_string();
+                let root = crate::props::c18::scratch().join(format!("{thread}-{}", self.id()));
+                crate::props::c18::build_state(&root);
+                let lit = |p: &str| crate::lit::escape_string(&format!("{}/{p}", root.display()));
+                let mut args = lit(pa);
+                if params.len() >= 2 {
+                    args += ", ";
+                    args += &if op == "write_to_file" { crate::lit::escape_string(case["contents"].as_str().unwrap_or("")) } else { lit(pb) };
+                }
+                let arms: String = ret.members().iter().enumerate().map(|(i, m)| format!("v: {} => {i}, ", m.print())).collect();
+                let text = format!("r := std.fs.{op}({args}); n := match r {{ {arms}}}; (r, n)");
+                let run = exec::run_program_full(&text, self.monitor());
+                if matches!(run.outcome, Outcome::Rejected(_)) {
+                    return Verdict::Discard("rejected by the checker");
+                }
+                stats.label(&format!("fs {op}"));
+                self.nontrivial(&text, &run, stats);
+                stats.sample(4, || json!({"program": text, "outcome": run.outcome.short()}));
+                self.judge(&format!("`{text}`"), &run, stats).unwrap_or(Verdict::Pass)
+            }
             _ => Verdict::Discard("unknown kind"),
         }
     }
@@ -370,6 +399,9 @@ pub fn run(session: &Session, prop: &'static Soundness) -> i32 {
     for text in crate::genr::nearmiss::cell_widening_programs() {
         cases.push(json!({"kind": "near-miss", "text": text}));
     }
+    for text in crate::genr::nearmiss::string_spelling_programs() {
+        cases.push(json!({"kind": "near-miss", "text": text}));
+    }
     {
         for x in 0..CATALOGUE.len() {
             for y in 0..CATALOGUE.len() {
@@ -382,6 +414,7 @@ pub fn run(session: &Session, prop: &'static Soundness) -> i32 {
             }
         }
     }
+    cases.extend(crate::props::c18::fs_cases());
     session.set_extra("enumerated_cases", json!(cases.len()));
     if !session.stopped() {
         session.run_enum(prop, cases);
@@ -398,7 +431,7 @@ pub fn run(session: &Session, prop: &'static Soundness) -> i32 {
         ),
         Mode::Panics => (
             "the operator x operand-type matrix (as for C01), the documentation corpus, 480 control-placement near misses and 40k (quick) tape-generated typed programs of every profile (a third of them with token-level edits, executed when the checker still accepts them): every accepted function is called through the host API and in-language with every combination of catalogue values of its parameter types. Oracle: execution ends in a value or one of the six documented run-time errors; a panic is a violation; exhausted fuel/depth/length budgets are counted as inconclusive. Non-trivial = an accepted program that was executed to a value or documented error; distinct by call.",
-            &["programs run against std without fs and io"],
+            &["generated programs run against std without fs and io; std.fs is called by the hand-written fs programs over a scratch directory only"],
         ),
     };
     session.finish(rule, false, assumptions)
